@@ -229,6 +229,21 @@ Placement(c, orc, a, b) ==
          THEN "LiveBuffersDisjoint"
     ELSE "ok"
 
+(* ---- C12: materialised casts deliver the right data to every consumer ---- *)
+IsAccelEvent(e) == e.k = "op" /\ e.n = "linalg.generic"
+RECURSIVE AccelObs(_, _)
+AccelObs(log, k) ==    \* what each accelerator operation observed, in program order
+  IF k > Len(log) THEN <<>>
+  ELSE (IF IsAccelEvent(log[k]) THEN << <<log[k].s[1], log[k].rt>> >> ELSE <<>>) \o AccelObs(log, k + 1)
+Casts(c, orc, a, b) ==
+  IF b.fault # "none" THEN "B.fault:" \o b.fault
+  ELSE IF AccelObs(a.log, 1) # AccelObs(b.log, 1) THEN "ConsumersReadOriginalData"
+  ELSE IF \E x \in DOMAIN a.cont : IsArgCell(b.uf, x) /\ ContOf2(b.cont, x) # a.cont[x] THEN "WritersCopiedBack"
+  ELSE IF \E x \in DOMAIN b.cont : IsArgCell(b.uf, x) /\ ContOf2(a.cont, x) # b.cont[x] THEN "WritersCopiedBack"
+  ELSE IF c.needl1 = 1 /\ \E k \in DOMAIN b.log : IsAccelEvent(b.log[k]) /\ \E j \in DOMAIN b.log[k].ams : b.log[k].ams[j] # "L1"
+       THEN "AcceleratorOperandsInL1"
+  ELSE "ok"
+
 Judge(contract, c, orc, a, b) ==
   IF a.fault # "none" THEN "skipA:" \o a.fault
   ELSE CASE contract \in {"dedup", "overlap", "trace"} -> AccfgObs(a, b)
@@ -243,5 +258,6 @@ Judge(contract, c, orc, a, b) ==
          [] contract = "scalar" -> SameScalar(c, orc, a, b)
          [] contract = "allocsize" -> AllocSize(c, orc, a, b)
          [] contract = "placement" -> Placement(c, orc, a, b)
+         [] contract = "casts" -> Casts(c, orc, a, b)
          [] OTHER -> "machinery:unknown-contract"
 =============================================================================
